@@ -45,3 +45,33 @@ class HashStub:
     def table(self, ex, m):
         """concrete lookup table preimage->digest under model m (for witness replay with the same 'hash')"""
         return {ex.eval(p, m): ex.eval(o, m) for p, o in self.calls}
+
+
+class FoldStub:
+    """Uninterpreted fold over a list of small integers (e.g. the Bech32 polymod): fresh symbolic result per call,
+    functional consistency by Ackermann axioms (equal argument lists => equal results)."""
+
+    def __init__(self, name, bits):
+        self.name, self.bits = name, bits
+        self.calls = []
+
+    def reset(self):
+        self.calls = []
+
+    def __call__(self, values):
+        values = list(values)
+        W = core.cur().W
+        out = core.SInt(z3.BitVec('%s%d' % (self.name, len(self.calls)), W), 0, (1 << self.bits) - 1)
+        core.cur()._add(z3.And(out.t >= 0, out.t < (1 << self.bits)))
+        self.calls.append((values, out))
+        return out
+
+    def axioms(self):
+        ax = []
+        for i in range(len(self.calls)):
+            for j in range(i):
+                (vi, oi), (vj, oj) = self.calls[i], self.calls[j]
+                if len(vi) == len(vj):
+                    eq = z3.And([core._bv(a) == core._bv(b) for a, b in zip(vi, vj)]) if vi else z3.BoolVal(True)
+                    ax.append(z3.Implies(eq, oi.t == oj.t))
+        return ax
